@@ -14,12 +14,87 @@
 (*   NoSharedSecret  a value SPSDK chose itself is carried by no other artefact of the history            *)
 (*   NoNonceReuse    no two artefacts combine the same AES-CTR key with the same nonce, unless the user   *)
 (*                   supplied both                                                                        *)
+(*                                                                                                        *)
+(* Two further dimensions of a construction (besides kind, entry point and user-supplied fields):         *)
+(*   opt   the OPTIONS of the entry point - the arguments that are not secrets (context flags of an OTFAD *)
+(*         key blob, lock / key size / mode of an IEE key blob, engine selection of a BEE build, signed / *)
+(*         SHA flags of an SB file ...).  "The user did not supply one" holds whatever the options say:   *)
+(*         for EVERY option combination with which the artefact still protects data, the fields the user  *)
+(*         left out are chosen anew (Opts, Construct).                                                    *)
+(*   part  one BUILD (one call of an entry point) can emit SEVERAL artefacts, each a file of its own with *)
+(*         its own self-chosen secrets (a BEE build for both engines: two region headers from two engine  *)
+(*         configurations).  Every part is an artefact like any other: the clauses hold between the parts *)
+(*         of one build exactly as between artefacts of different builds (Parts, PartsFresh).             *)
 EXTENDS Naturals, Sequences, FiniteSets, TLC
 
 \* ---------------------------------------------------------------------------------- what the property lists
-\* menu of constructions: kind of artefact, how it is built, which fields the user supplies (ex);
-\* base = the variant with the fewest user-supplied fields of its (kind, how)
-M(k, h, e, b) == [kind |-> k, how |-> h, ex |-> e, base |-> b]
+ToSet(s) == {s[i] : i \in DOMAIN s}
+SeqOf(order, S) == SelectSeq(order, LAMBDA x : x \in S)         \* a set of names as a sequence in a fixed order
+
+\* ---- options of the entry points.  An option combination is a sequence of names; Opts(k, h) = the combinations of the case space,
+\*      Dflt(k, h) = what the entry point does when its caller says nothing.  Entry points without such arguments: the one combination <<>>.
+\* OTFAD key blob, key_flags: VLD = the context is valid, ADE = data fetched through the context are decrypted, RO = the context registers are
+\* locked until the next reset.  The engine decrypts through a context iff VLD and ADE are both set; RO does not change that (a locked context is
+\* what a production configuration asks for).  A context that does not decrypt protects nothing: outside the case space.
+OtfadFlagOrder == <<"ro", "ade", "vld">>
+OtfadDecrypts(F) == {"ade", "vld"} \subseteq F
+OtfadOpts == {SeqOf(OtfadFlagOrder, F) : F \in {G \in SUBSET ToSet(OtfadFlagOrder) : OtfadDecrypts(G)}}
+\* IEE key blob attribute: region lock x key size x AES mode.  Kind IEE = the XTS mode (two keys), kind IEECTR = the three counter modes
+\* (key + initial counter); the bypass mode does not encrypt: outside the case space.
+IeeLocks == {"unlock", "lock"}
+IeeSizes == {"k128", "k256"}
+IeeCtrModes == {"ctr_addr", "ctr_noaddr", "ctr_stream"}
+\* BEE region header through the classes: BeeRegionHeader() alone ("hdr"), or composed by its caller from a BeeProtectRegionBlock (AES-CTR, the
+\* lock options word zero / all ones) and a BeeKIB, both built without secrets ("parts").  Through load_from_config: the engine selection,
+\* for both engines with one user key for the two engines or with two.
+BeeCtorOpts == {<<"hdr">>, <<"parts", "lock0">>, <<"parts", "lockF">>}
+BeeCfgOpts == {<<"engine0">>, <<"engine1">>, <<"both", "same">>, <<"both", "diff">>}
+\* SB2 files through the classes: unsigned / signed (2.0), with / without the SHA-256 flag (2.1) x time stamp now / given (a given time stamp
+\* travels in an advanced-parameters object that says nothing about the secrets)
+Sb20Opts == {<<s, t>> : s \in {"unsigned", "signed"}, t \in {"now", "ts"}}
+Sb21Opts == {<<s, t>> : s \in {"sha", "nosha"}, t \in {"now", "ts"}}
+Opts(k, h) == CASE k = "OTFAD" /\ h = "ctor" -> OtfadOpts
+                [] k = "IEE" /\ h = "ctor" -> {<<l, z>> : l \in IeeLocks, z \in IeeSizes}
+                [] k = "IEECTR" /\ h = "ctor" -> {<<l, z, m>> : l \in IeeLocks, z \in IeeSizes, m \in IeeCtrModes}
+                [] k = "BEE" /\ h = "ctor" -> BeeCtorOpts
+                [] k = "BEE" /\ h = "config" -> BeeCfgOpts
+                [] k = "SB20" /\ h = "ctor" -> Sb20Opts
+                [] k = "SB21" /\ h = "ctor" -> Sb21Opts
+                [] k = "MBI" /\ h = "ctor" -> {<<"hwk0">>, <<"hwk1">>}            \* enableHwUserModeKeys off / on
+                [] k = "HABRT" /\ h = "ctor" -> {<<"nor">>, <<"sd">>}              \* IVT offset of a NOR flash / of the other boot devices
+                [] k = "HAB" /\ h = "config" -> {<<"k128">>, <<"k192">>, <<"k256">>} \* SecretKey_Length of the Install Secret Key command
+                [] k = "HEX" /\ h = "call" -> {<<"n16">>, <<"n32">>, <<"n64">>}    \* size of the requested value
+                [] OTHER -> {<<>>}
+Dflt(k, h) == CASE k = "OTFAD" /\ h = "ctor" -> <<"ade", "vld">>
+                [] k = "IEE" /\ h = "ctor" -> <<"unlock", "k256">>
+                [] k = "IEECTR" /\ h = "ctor" -> <<"unlock", "k128", "ctr_addr">>
+                [] k = "BEE" /\ h = "ctor" -> <<"hdr">>
+                [] k = "BEE" /\ h = "config" -> <<"engine0">>
+                [] k = "SB20" /\ h = "ctor" -> <<"unsigned", "now">>
+                [] k = "SB21" /\ h = "ctor" -> <<"sha", "now">>
+                [] k = "MBI" /\ h = "ctor" -> <<"hwk0">>
+                [] k = "HABRT" /\ h = "ctor" -> <<"nor">>
+                [] k = "HAB" /\ h = "config" -> <<"k256">>                          \* (a configuration entry point: what the configuration of the menu item says)
+                [] k = "HEX" /\ h = "call" -> <<"n32">>
+                [] OTHER -> <<>>
+\* number of artefacts ONE build emits: a BEE build for both engines writes two region headers (bee_ehdr0.bin, bee_ehdr1.bin), each from its own
+\* engine configuration (user key, regions) with its own PRDB counter, KIB key and KIB IV
+Parts(k, h, o) == IF k = "BEE" /\ h = "config" /\ o # <<>> /\ o[1] = "both" THEN 2 ELSE 1
+MaxParts == 2
+\* what the exported bytes of part p must show of the options (the executor reads it back: the option reached the real entry point);
+\* <<>> = nothing to be read there
+Seen(k, h, o, p) == CASE k \in {"OTFAD", "IEE", "IEECTR"} -> o                                   \* flag bits of the end-address word / attribute bytes
+                      [] k = "BEE" /\ h = "ctor" -> <<IF o = <<"hdr">> THEN "lock0" ELSE o[2]>>      \* lock options word of the PRDB
+                      [] k = "BEE" /\ h = "config" -> <<IF o[1] = "engine1" \/ p = 2 THEN "slot1" ELSE "slot0">>  \* the header file the part was exported to
+                      [] k \in {"SB20", "SB21"} /\ h = "ctor" -> <<o[1]>>                            \* flags word of the file header
+                      [] k = "HEX" -> o                                                              \* length of the value
+                      [] k = "HAB" /\ h = "config" -> o                                              \* length of the DEK file the build wrote
+                      [] OTHER -> <<>>
+
+\* menu of constructions: kind of artefact, how it is built, which fields the user supplies (ex), with which options (opt; M: the default ones);
+\* base = a member of the base menu (the variant with the fewest user-supplied fields of its (kind, how))
+M(k, h, e, b) == [kind |-> k, how |-> h, ex |-> e, opt |-> Dflt(k, h), base |-> b]
+MO(k, h, e, o, b) == [kind |-> k, how |-> h, ex |-> e, opt |-> o, base |-> b]
 Menu == {
   M("SB20", "ctor", <<>>, TRUE),    M("SB20", "ctor", <<"dek", "mac">>, FALSE),    M("SB20", "ctor", <<"dek", "mac", "nonce">>, FALSE),
   M("SB21", "ctor", <<>>, TRUE),    M("SB21", "ctor", <<"dek", "mac">>, FALSE),    M("SB21", "ctor", <<"dek", "mac", "nonce">>, FALSE),
@@ -32,16 +107,19 @@ Menu == {
   M("MBI", "ctor", <<"key">>, TRUE),    M("MBI", "ctor", <<"key", "ctr_iv">>, FALSE),
   M("MBI", "config", <<"key">>, TRUE),  M("MBI", "config", <<"key", "ctr_iv">>, FALSE),
   M("OTFAD", "ctor", <<>>, TRUE),   M("OTFAD", "ctor", <<"key">>, FALSE),          M("OTFAD", "ctor", <<"key", "ctr">>, FALSE),
-  M("IEE", "ctor", <<>>, TRUE),     M("IEE", "ctor", <<"key1">>, FALSE),
-  M("IEECTR", "ctor", <<>>, TRUE),  M("IEECTR", "ctor", <<"key1">>, FALSE),
+  M("OTFAD", "ctor", <<"ctr">>, FALSE),                                            \* each optional secret alone: the other one is SPSDK's to choose
+  M("IEE", "ctor", <<>>, TRUE),     M("IEE", "ctor", <<"key1">>, FALSE),           M("IEE", "ctor", <<"key2">>, FALSE),
+  M("IEECTR", "ctor", <<>>, TRUE),  M("IEECTR", "ctor", <<"key1">>, FALSE),        M("IEECTR", "ctor", <<"key2">>, FALSE),
   M("BEE", "ctor", <<>>, TRUE),     M("BEE", "ctor", <<"sw_key">>, FALSE),
   M("BEE", "config", <<"sw_key">>, TRUE),
+  MO("BEE", "config", <<"sw_key">>, <<"both", "same">>, TRUE),      \* one build, two artefacts (a member of the base menu: it takes part in every lane)
   M("HAB", "config", <<>>, TRUE),   M("HAB", "config", <<"dek">>, FALSE),          M("HAB", "config", <<"dek", "nonce">>, FALSE),
   M("HABRT", "ctor", <<>>, TRUE),   M("HABRT", "ctor", <<"dek">>, FALSE),
   M("HEX", "call", <<>>, TRUE) }
 Kinds == {m.kind : m \in Menu}
-ToSet(s) == {s[i] : i \in DOMAIN s}
 ExOf(k, h) == {ToSet(m.ex) : m \in {x \in Menu : x.kind = k /\ x.how = h}}
+\* the menu with every option combination of every entry point (the option lane of the generator)
+OptMenu == UNION {{MO(m.kind, m.how, m.ex, o, FALSE) : o \in Opts(m.kind, m.how)} : m \in Menu}
 
 \* secret-bearing fields of an artefact, in a fixed order
 FieldSeq(k) == CASE k = "SB20"  -> <<"dek", "mac", "nonce", "hpad", "kpad">>      \* DEK, MAC key, header nonce, header padding, key-blob padding
@@ -74,8 +152,9 @@ CtrOf(k) == CASE k \in {"SB20", "SB21", "SB21KW", "HAB", "HABRT"} -> <<"dek", "n
 Reconf == {"MBI"}
 
 \* ---------------------------------------------------------------------------------- state
-VARIABLES arts,      \* sequence of artefacts: [kind, how, ex, proc, of, val]  (val: field -> id, 0 = not observed yet;
-                     \*   of = the artefact whose object was configured again to build this one, 0 = a new object)
+VARIABLES arts,      \* sequence of artefacts: [kind, how, ex, opt, proc, of, build, part, val]  (val: field -> id, 0 = not observed yet;
+                     \*   of = the artefact whose object was configured again to build this one, 0 = a new object;
+                     \*   build = number of the build (call of an entry point) that emitted it, part = its number among the artefacts of that build)
           old,       \* old[a]: self-chosen ids artefact a carried before its latest export (an export may draw new padding)
           proc,      \* number of the running interpreter
           live,      \* artefacts that exist in the running interpreter
@@ -90,15 +169,26 @@ PairOf(r) == <<r.val[CtrOf(r.kind)[1]], r.val[CtrOf(r.kind)[2]]>>
 HasPair(r) == CtrOf(r.kind) # <<>> /\ 0 \notin {PairOf(r)[1], PairOf(r)[2]}
 UserPair(r) == CtrOf(r.kind)[1] \in r.ex /\ CtrOf(r.kind)[2] \in r.ex  \* key and nonce both supplied by the user: the user's business
 
+\* builds: the last artefact tells which build is going on and how many of its parts are still to come (a build is one call: nothing else
+\* happens before all its parts exist)
+NBuilds == IF arts = <<>> THEN 0 ELSE Art(Len(arts)).build
+Open == IF arts = <<>> THEN 0 ELSE Parts(Art(Len(arts)).kind, Art(Len(arts)).how, Art(Len(arts)).opt) - Art(Len(arts)).part
+\* part p of a build (k, h, ex, o): the first part starts a new build, every further one continues the build of the last artefact
+PartOk(k, h, ex, o, p) == /\ o \in Opts(k, h) /\ p \in 1..Parts(k, h, o)
+                          /\ p = 1 => Open = 0
+                          /\ p > 1 => /\ Open > 0
+                                      /\ LET r == Art(Len(arts)) IN r.kind = k /\ r.how = h /\ r.ex = ex /\ r.opt = o /\ r.part = p - 1 /\ r.proc = proc
+
 \* the two clauses of the property, for artefact number a with record r
 FreshFor(a, v) == \A b \in DOMAIN arts : b # a => v \notin Has(b)
 NoShared(a, r, asserted) == \A f \in asserted : r.val[f] # 0 => FreshFor(a, r.val[f])
 NonceOk(a, r) == (HasPair(r) /\ ~UserPair(r)) =>
                    \A b \in DOMAIN arts : (b # a /\ HasPair(Art(b))) => PairOf(Art(b)) # PairOf(r)
 
-Rec(k, h, ex, vals) == [kind |-> k, how |-> h, ex |-> ex, proc |-> proc, of |-> 0,
-                        val |-> [f \in Fields(k) |-> IF f \in DOMAIN vals THEN vals[f] ELSE 0]]
-RecOf(o, ex, vals) == [Rec(Art(o).kind, "config", ex, vals) EXCEPT !.of = o]   \* the artefact a configured-again object holds
+Rec(k, h, ex, o, p, vals) == [kind |-> k, how |-> h, ex |-> ex, opt |-> o, proc |-> proc, of |-> 0,
+                              build |-> IF p = 1 THEN NBuilds + 1 ELSE NBuilds, part |-> p,
+                              val |-> [f \in Fields(k) |-> IF f \in DOMAIN vals THEN vals[f] ELSE 0]]
+RecOf(o, ex, vals) == [Rec(Art(o).kind, "config", ex, Dflt(Art(o).kind, "config"), 1, vals) EXCEPT !.of = o]   \* the artefact a configured-again object holds
 
 Init == arts = <<>> /\ old = <<>> /\ proc = 1 /\ live = {} /\ imported = FALSE
 
@@ -106,24 +196,26 @@ Init == arts = <<>> /\ old = <<>> /\ proc = 1 /\ live = {} /\ imported = FALSE
 Import(n) == ~imported /\ n \in Nat /\ imported' = TRUE /\ UNCHANGED <<arts, old, proc, live>>
 
 \* state updates without the guards (the implementation-shaped spec FreshImpl uses them: real code does not check anything)
-RecordConstruct(k, h, ex, vals) ==
-  /\ arts' = Append(arts, Rec(k, h, ex, vals)) /\ old' = Append(old, {}) /\ live' = live \cup {Len(arts) + 1}
+RecordConstruct(k, h, ex, o, p, vals) ==
+  /\ arts' = Append(arts, Rec(k, h, ex, o, p, vals)) /\ old' = Append(old, {}) /\ live' = live \cup {Len(arts) + 1}
   /\ UNCHANGED <<proc, imported>>
 Exported(a, vals) == [Art(a) EXCEPT !.val = [f \in Fields(Art(a).kind) |-> IF f \in DOMAIN vals THEN vals[f] ELSE 0]]
 RecordExport(a, vals) ==
   /\ arts' = [arts EXCEPT ![a] = Exported(a, vals)] /\ old' = [old EXCEPT ![a] = old[a] \cup SelfVals(Art(a))]
   /\ UNCHANGED <<proc, live, imported>>
 
-\* a new artefact; vals = the fields observable right after construction; `excused` fields are recorded but not asserted
-Construct(k, h, ex, vals, excused) ==
+\* a new artefact: part p of a build with the options o; vals = the fields observable right after construction; `excused` fields are
+\* recorded but not asserted.  The guards do not look at o or p: whatever the options, and whether the other artefacts come from the same
+\* build or from another one, what SPSDK chose for this artefact is carried by no other.
+Construct(k, h, ex, o, p, vals, excused) ==
   LET a == Len(arts) + 1
-      r == Rec(k, h, ex, vals) IN
+      r == Rec(k, h, ex, o, p, vals) IN
   /\ imported
-  /\ k \in Kinds /\ ex \in ExOf(k, h)
+  /\ k \in Kinds /\ ex \in ExOf(k, h) /\ PartOk(k, h, ex, o, p)
   /\ DOMAIN vals \subseteq Fields(k) /\ DOMAIN vals # {} /\ \A f \in DOMAIN vals : vals[f] # 0
   /\ NoShared(a, r, (Fields(k) \ ex) \ excused)
   /\ (NonceOk(a, r) \/ ToSet(CtrOf(k)) \cap excused # {})
-  /\ RecordConstruct(k, h, ex, vals)
+  /\ RecordConstruct(k, h, ex, o, p, vals)
 
 \* the object of live artefact o is configured AGAIN through its load_from_config (ex = what the user supplies this time): the object now
 \* holds a new artefact, o is gone.  The new artefact is built as independently as any other: what SPSDK chooses for it is carried by no
@@ -135,24 +227,28 @@ Reconfigure(o, ex, vals, excused) ==
   LET a == Len(arts) + 1
       k == Art(o).kind
       r == RecOf(o, ex, vals) IN
+  /\ Open = 0
   /\ o \in live /\ k \in Reconf /\ ex \in ExOf(k, "config")
   /\ DOMAIN vals \subseteq Fields(k) /\ DOMAIN vals # {} /\ \A f \in DOMAIN vals : vals[f] # 0
   /\ NoShared(a, r, (Fields(k) \ ex) \ excused)
   /\ (NonceOk(a, r) \/ ToSet(CtrOf(k)) \cap excused # {})
   /\ RecordReconfigure(o, ex, vals)
 
-\* the artefact is serialised; vals = every field as found in the exported bytes (skip: narrow fields left out)
-Export(a, vals, skip, excused) ==
+\* the artefact is serialised; vals = every field as found in the exported bytes (skip: narrow fields left out), seen = what the exported
+\* bytes show of the options it was built with
+Export(a, vals, skip, seen, excused) ==
   LET k == Art(a).kind
       r == Exported(a, vals) IN
+  /\ Open = 0
   /\ a \in live
   /\ skip \subseteq Narrow(k) /\ DOMAIN vals = Fields(k) \ skip /\ \A f \in DOMAIN vals : vals[f] # 0
+  /\ seen = Seen(k, Art(a).how, Art(a).opt, Art(a).part)
   /\ NoShared(a, r, (Fields(k) \ r.ex) \ excused)
   /\ (NonceOk(a, r) \/ ToSet(CtrOf(k)) \cap excused # {})
   /\ RecordExport(a, vals)
 
 \* the interpreter ends, a new one starts: its artefacts are gone, the values they carried are not forgotten
-Restart == proc' = proc + 1 /\ live' = {} /\ imported' = FALSE /\ UNCHANGED <<arts, old>>
+Restart == Open = 0 /\ proc' = proc + 1 /\ live' = {} /\ imported' = FALSE /\ UNCHANGED <<arts, old>>
 
 \* ---------------------------------------------------------------------------------- the property as state invariants
 GivenVals(r) == {r.val[f] : f \in Fields(r.kind) \cap r.ex} \ {0}
@@ -166,10 +262,16 @@ NoNonceReuse == \A a, b \in DOMAIN arts :
 \* the clause of NoSharedSecret that a configured-again object can break on its own (implied by NoSharedSecret; kept as a separate, readable invariant):
 \* nothing the object held before - self-chosen or explicit - is what SPSDK "chooses" for its next configuration
 ReconfiguredFresh == \A a \in DOMAIN arts : Art(a).of # 0 => AllSelf(a) \cap Has(Art(a).of) = {}
+\* the clause of NoSharedSecret a build that emits several artefacts can break on its own (implied by NoSharedSecret): drawing once per CALL
+\* instead of once per artefact puts one value into two artefacts
+PartsFresh == \A a, b \in DOMAIN arts : (a # b /\ Art(a).build = Art(b).build) => AllSelf(a) \cap AllSelf(b) = {}
 TypeOK == /\ Len(old) = Len(arts) /\ live \subseteq DOMAIN arts
           /\ \A a \in DOMAIN arts : /\ Art(a).of \in 0..(a - 1)
                                     /\ Art(a).of # 0 => /\ Art(a).kind \in Reconf /\ Art(a).how = "config" /\ Art(a).of \notin live
                                                         /\ Art(Art(a).of).kind = Art(a).kind /\ Art(Art(a).of).proc = Art(a).proc
           /\ \A a \in DOMAIN arts : Art(a).kind \in Kinds /\ Art(a).ex \in ExOf(Art(a).kind, Art(a).how) /\ Art(a).proc <= proc
+          /\ \A a \in DOMAIN arts : /\ Art(a).opt \in Opts(Art(a).kind, Art(a).how) /\ Art(a).part \in 1..Parts(Art(a).kind, Art(a).how, Art(a).opt)
+                                    /\ Art(a).build = (IF a = 1 THEN 1 ELSE IF Art(a).part = 1 THEN Art(a - 1).build + 1 ELSE Art(a - 1).build)
+                                    /\ Art(a).part > 1 => Art(a - 1).part = Art(a).part - 1 /\ Art(a - 1).proc = Art(a).proc
           /\ \A a \in live : Art(a).proc = proc
 =============================================================================
